@@ -27,8 +27,17 @@ class SimAbort(BaseException):
         self.detail = detail
 
 
+RAISED_HARNESS_ERRORS: list = []
+
+
 class HarnessError(Exception):
-    pass
+    """The simulator cannot represent what the code under test just did (an unmodelled seam).  Whatever
+    the code under test does with the exception, the run is reported as a harness error, never as a
+    verdict about the property."""
+
+    def __init__(self, *a):
+        super().__init__(*a)
+        RAISED_HARNESS_ERRORS.append(' '.join(str(x) for x in a)[:300])
 
 
 class _Frozen(BaseException):
